@@ -22,6 +22,14 @@ CHECKS = {
    text="Pushdown recogniser over the raw monitor callback stream (balanced, well nested, exit/transition/entry phase order, content only inside brackets, nothing but event/stable/completion notices outside microsteps) plus completeness and order against the reference model, on generated charts incl. injected errors, both engines.",
    note="Trusted: the grammar (derived from test-lifecycle.cpp and the property text), reference model for completeness. Invocation callbacks only covered by C11.",
    technique="property-based testing with a grammar oracle + reference model (Hypothesis)"),
+ 'C12': dict(category='exploration', design_ref='DESIGN.md §4 C12',
+   text="Exhaustive enumeration of the descriptor-list x event-name space over a small alphabet (all lists of <=2 descriptors, each with '', '.*', '.' suffix or '*', all blank variants; >2M pairs per quick run) plus random longer ones, against a reference matcher written from Rec. 3.12.1; for uscxml::nameMatch, the matcher copy shipped in the generated-C scaffolding (extracted and compiled at check time) and end-to-end through both engines.",
+   note="Trusted: the 12-line reference matcher; brace-matching extraction of the scaffolding function (check exits 2 if extraction fails). Promela/VHDL static descriptor resolution is exercised by C06/C18, not here.",
+   technique="bounded exhaustive enumeration + property-based testing against a reference matcher"),
+ 'C15': dict(category='exploration', design_ref='DESIGN.md §4 C15',
+   text="Round-trip properties over generated Data trees (all byte values) and Events, parser robustness over damaged JSON text and raw bytes under ASan/UBSan, and a coverage-guided libFuzzer campaign on Data::fromJSON (about 2M executions per quick run); failures shrink to minimal trees / inputs and are replayed from committed corpus files.",
+   note="Trusted: independent JSON printer and dumper in the harness; sanitizers. Top-level atoms and empty containers are outside the asserted domain (by the code's own contract).",
+   technique="round-trip property-based testing (Hypothesis) + libFuzzer with sanitizers"),
 }
 NOT_YET = "check not implemented yet in this session (see DESIGN.md §11 for the plan)"
 
